@@ -5,8 +5,8 @@
       pointers (root 20) ["/a/1/b~0", "/c~1d", "/a/2", "a"]     string nodes 21-24, valuestring blocks 201-204
     allocator pointer 1000. *)
 From CJ Require Import Base Dbl Heap Forest ForestLemmas CoreDefs CoreRefineFrame CoreRefineDupValue CoreLedgerGen.
-From CJ Require Import TierBridgeDefs MergeHeapDefs MergeHeapInv MergeHeapEx PatchHeapDefs PatchHeapPath PatchHeapPointer.
-From CJ Require Tree PointerDefs PatchDefs.
+From CJ Require Import TierBridgeDefs MergeHeapDefs MergeHeapInv MergeHeapEx PatchHeapDefs PatchHeapPath PatchHeapPointer PatchHeapStr PatchHeapSteps PatchHeapDetach.
+From CJ Require Tree PointerDefs PatchDefs CoreOps.
 From CJ.gen Require Import Constants.
 From stdpp Require Import gmap.
 Local Open Scope Z_scope.
@@ -77,4 +77,55 @@ Proof.
   change (Some 1%positive) with (Some (tid px_doc)).
   rewrite (get_item_from_pointer_refines px_heap px_F px_MInv px_doc _ _ true px_doc_node R).
   f_equal.
+Qed.
+
+(** * stage 2: detach_path *)
+Definition px_heap_of {A} (o : out (A * heap)) : heap := out_heap o px_heap.
+Definition px_det1 := detach_path nofail (Some 1%positive) (Some 201%positive) true px_heap.     (* /a/1/b~0 : member of an object *)
+Definition px_det2 := detach_path nofail (Some 1%positive) (Some 203%positive) true px_heap.     (* /a/2 : no such element *)
+Definition px_det3 := detach_path nofail (Some 1%positive) (Some 202%positive) true px_heap.     (* /c~1d *)
+Definition px_num (v : Z) (k : option bytes) : Tree.node := Tree.Node c_cJSON_Number None v (dbl_of_int v) k [].
+(** the document after /a/1/b~0 has been detached: {"a":[10,{}],"A":2,"c/d":3} *)
+Definition px_doc1 : Tree.node :=
+  Tree.Node c_cJSON_Object None 0 dzero None
+    [Tree.Node c_cJSON_Array None 0 dzero (Some [97]) [px_num 10 None; Tree.Node c_cJSON_Object None 0 dzero None []];
+     px_num 2 (Some [65]); px_num 3 (Some [99; 47; 100])].
+
+(** the heap-level runs: result pointer, the document and the detached item read back from the result heap by
+    the structural walk, and the ledger (nothing allocated stays live: the copy of the path, block 1000, is gone) *)
+Lemma px_detach_runs :
+  out_val px_det1 = Some (Some 5%positive) /\
+  out_val (CoreOps.dump_node 50 (Some 1%positive) (px_heap_of px_det1)) = Some (Some (px_doc1, true)) /\
+  out_val (CoreOps.dump_node 50 (Some 5%positive) (px_heap_of px_det1)) = Some (Some (px_num 5 (Some [98; 126]), true)) /\
+  bool_decide (lib_live (px_heap_of px_det1) = lib_live px_heap) = true /\
+  out_val px_det2 = Some None /\
+  out_val (CoreOps.dump_node 50 (Some 1%positive) (px_heap_of px_det2)) = Some (Some (reify px_St px_doc, true)) /\
+  bool_decide (lib_live (px_heap_of px_det2) = lib_live px_heap) = true /\
+  out_val px_det3 = Some (Some 7%positive).
+Proof. vm_compute. done. Qed.
+
+(** the value-level model on the reified document *)
+Lemma px_detach_values :
+  PatchDefs.detach_path (reify px_St px_doc) [47; 97; 47; 49; 47; 98; 126; 48] true = Ok (Some (px_num 5 (Some [98; 126]), px_doc1)) /\
+  PatchDefs.detach_path (reify px_St px_doc) [47; 97; 47; 50] true = Ok None.
+Proof. vm_compute. done. Qed.
+
+(** the hypotheses of [detach_path_refines] hold for this heap ([px_F] = [px_ptrs] ++ [px_doc]) *)
+Lemma px_stage2 :
+  MInv px_heap ([px_ptrs] ++ [px_doc]) /\ NoLeak px_heap ([px_ptrs] ++ [px_doc]) /\
+  201%positive ∈ h_live px_heap /\ h_str px_heap !! 201%positive = Some [47; 97; 47; 49; 47; 98; 126; 48; 0] /\
+  exists h' r F',
+    detach_path nofail (Some (tid px_doc)) (Some 201%positive) true px_heap = Ret (r, h') /\
+    MInv h' F' /\ h_str h' = h_str px_heap /\ NoLeak h' F' /\
+    detach_post (h_str px_heap) [px_ptrs] px_doc r F' (Ok (Some (px_num 5 (Some [98; 126]), px_doc1))).
+Proof.
+  split; [exact px_MInv|]. split; [apply heap_of_forest_NoLeak|].
+  assert (Hl : 201%positive ∈ h_live px_heap) by (apply (bool_decide_unpack _); vm_compute; exact I).
+  split; [exact Hl|]. split; [reflexivity|].
+  destruct (detach_path_refines px_heap [px_ptrs] px_doc 201 [47; 97; 47; 49; 47; 98; 126; 48; 0] true px_MInv Hl eq_refl eq_refl)
+    as (h' & r & F' & Hrun & I' & Es & NL & _ & Hpost).
+  exists h', r, F'. split; [exact Hrun|]. split; [exact I'|]. split; [exact Es|]. split; [apply NL, heap_of_forest_NoLeak|].
+  replace (Ok (Some (px_num 5 (Some [98; 126]), px_doc1))) with
+    (PatchDefs.detach_path (reify (h_str px_heap) px_doc) (cstr [47; 97; 47; 49; 47; 98; 126; 48; 0]) true); [exact Hpost|].
+  vm_compute. reflexivity.
 Qed.
